@@ -108,15 +108,9 @@ theorem phi_sub (J : Matrix ι κ ℝ) (d : κ → ℝ) (r : ι → ℝ) (lam : 
 
 theorem H_isHermitian (J : Matrix ι κ ℝ) (d : κ → ℝ) (lam : ℝ) : (H J d lam).IsHermitian := by
   unfold H
-  refine Matrix.IsHermitian.add ?_ ?_
-  · exact Matrix.isHermitian_transpose_mul_self J
-  · refine Matrix.IsHermitian.ext ?_
-    intro i j
-    simp only [smul_apply, diagonal_apply, star_trivial, smul_eq_mul]
-    by_cases h : i = j
-    · subst h; simp
-    · have h' : ¬ j = i := fun e => h e.symm
-      simp [h, h']
+  refine Matrix.IsHermitian.add ?_ ((Matrix.isHermitian_diagonal _).smul (IsSelfAdjoint.all _))
+  have := Matrix.isHermitian_conjTranspose_mul_self J
+  simpa [conjTranspose_eq_transpose_of_trivial] using this
 
 theorem quad_pos {J : Matrix ι κ ℝ} {d : κ → ℝ} {lam : ℝ} (hd : ∀ j, 0 < d j) (hl : 0 < lam)
     {e : κ → ℝ} (he : e ≠ 0) : 0 < e ⬝ᵥ (H J d lam *ᵥ e) := by
